@@ -309,6 +309,35 @@ fn cli_pass(text: &str, whole: &Balances, queries: &mut u64) -> Option<Outcome> 
     if oka::clean_balances(&cli_bal) != oka::clean_balances(whole) {
         return Some(Outcome::violation("cli-balance-differs-from-api-balance", format!("cli:\n{}\napi: {:?}", bal, whole)));
     }
+    // the same range given on the command line and to the library must give the same report - also when the range is
+    // empty or inverted (--end before --start selects nothing)
+    let some_bounds: Vec<u32> = bounds().into_iter().flatten().collect();
+    for s in &some_bounds {
+        for e in &some_bounds {
+            *queries += 1;
+            let (ss, es) = (format!("2024-01-{:02}", s), format!("2024-01-{:02}", e));
+            let out = match run_cli(&["okane", "balance", "--start", &ss, "--end", &es, &p]) {
+                Ok(o) => o,
+                Err(er) => return Some(Outcome::violation("cli-range-balance-failed", format!("--start {} --end {}: {}", ss, es, er))),
+            };
+            let mut cli_bal = Balances::new();
+            for line in out.lines() {
+                let (acc, amt) = line.rsplit_once(": ")?;
+                cli_bal.insert(acc.to_string(), super::bk::parse_inline_amount(amt)?);
+            }
+            let api: Balances = oka::with_ledger(&[(oka::ROOT, text)], oka::ROOT, None, |r| {
+                let (l, c) = r.expect("accepted by construction");
+                let q = BalanceQuery { conversion: None, date_range: DateRange { start: Some(day(*s)), end: Some(day(*e)) } };
+                oka::balance_to_map(&l.balance(c, &q).expect("range balance"))
+            });
+            if oka::clean_balances(&cli_bal) != oka::clean_balances(&api) {
+                return Some(Outcome::violation(
+                    format!("cli-range-balance-differs-from-library/{}", if s > e { "inverted-range" } else if s == e { "empty-range" } else { "proper-range" }),
+                    format!("okane balance --start {} --end {}\ncli:\n{}\nlibrary: {:?}", ss, es, out, oka::clean_balances(&api)),
+                ));
+            }
+        }
+    }
     for acc in ["P", "Q", "R"] {
         *queries += 1;
         let reg = match run_cli(&["okane", "register", &p, acc]) {
